@@ -21,7 +21,7 @@ TITLES = {
     "O": ["~O", "~Other", "~OTHER INFORMATION", "~Other Information Section", "~o", "~other", "~O ---- remarks"],
     "A": ["~A", "~ASCII", "~ASCII LOG DATA", "~Ascii", "~a", "~ascii log data", "~A  DEPT  C1  C2"],
 }
-CUSTOM_TITLES = ["~Tops", "~T", "~tops", "~X custom section", "~Zones", "~z", "~Remarks extra", "~R", "~Bit record", "~b",
+CUSTOM_TITLES = ["~TOOL_DATA", "~core_data", "~Run_DATA summary", "~Tops", "~T", "~tops", "~X custom section", "~Zones", "~z", "~Remarks extra", "~R", "~Bit record", "~b",
                  "~Mud", "~m", "~Inclinometry", "~i", "~Drilling", "~d", "~Equipment", "~e", "~TOPS", "~XTRA", "~Q1", "~q 2"]
 UNITS = ["", "M", "FT", "US/F", "G/C3", "K/M3", "OHMM", "%", "1000 lbf", "[M]", "(FT)"]
 
@@ -125,13 +125,17 @@ def gen_doc(rng, max_custom=3, allow_data=True, dlm=None, vers=None, wrap=None, 
 
     def new(kind, ttl):
         sid[0] += 1
+        if rng.random() < 0.12:      # an indented title line (titles are recognised after stripping)
+            ttl = rng.choice([" ", "  ", "\t", "   "]) + ttl
         return Sec(kind=kind, title=ttl, id=sid[0], body=[])
 
     def tagged_items(s, letter, n):
         out = []
         for j in range(n):
             tag = "%dq%d" % (s.id, j)
-            out.append((item_line(rng, "M" + tag, rng.choice(UNITS), "v" + tag, "from-%s-%s" % (letter, tag)), "item", tag))
+            # (outside ~Parameter the LAST colon of a line ends the value: values may hold colons of their own)
+            extra = rng.choice(["", "", "", "", " : 3", ":30", " :x", ": y", " : a : b"]) if letter != "P" else ""
+            out.append((item_line(rng, "M" + tag, rng.choice(UNITS), "v" + tag + extra, "from-%s-%s" % (letter, tag)), "item", tag))
         return out
     v = new("V", title("V"))
     lines = [(item_line(rng, "VERS", "", vers, "CWLS LOG ASCII STANDARD - VERSION " + vers), "steer", None)]
